@@ -55,8 +55,8 @@ MUTANTS = [
          replace='            logger.exception("method unhandled exception %s(%r): %r", method_name, params, e)\n            bound_method()\n            raise pjrpc.exceptions.ServerError() from e\n\n\nclass AsyncDispatcher',
          expect='ONCE-INVOKE'),
     dict(name='gather-to-as_completed', file='pjrpc/server/dispatcher.py',
-         find='for resp in await asyncio.gather(*(self._request_handler(req, context) for req in request))',
-         replace='for resp in [await c for c in asyncio.as_completed([self._request_handler(req, context) for req in request])]',
+         find='results = await asyncio.gather(*(self._request_handler(req, context) for req in request))',
+         replace='results = [await c for c in asyncio.as_completed([self._request_handler(req, context) for req in request])]',
          expect='ORDER-MAP'),
     dict(name='size-check-geq', file='pjrpc/server/dispatcher.py', nth=0,
          find='len(request) > self._max_batch_size', replace='len(request) >= self._max_batch_size', expect='REJECT-BEFORE-RUN'),
